@@ -53,6 +53,11 @@ pub(crate) mod nd {
         pub static FAILED: RefCell<Vec<String>> = RefCell::new(Vec::new());
     }
     pub fn record_failure(m: &str) { FAILED.with(|f| f.borrow_mut().push(m.to_string())); }
+    thread_local! { pub static TRACE: RefCell<Vec<String>> = RefCell::new(Vec::new()); }
+    /// observable event of the current run (results, contents, destructor / clone order, Debug output):
+    /// compared between two builds of the crate by the C18 differential stand-in
+    pub fn trace(s: String) { TRACE.with(|t| t.borrow_mut().push(s)); }
+    pub fn take_trace() -> Vec<String> { TRACE.with(|t| core::mem::take(&mut *t.borrow_mut())) }
     pub fn take_failures() -> Vec<String> { FAILED.with(|f| core::mem::take(&mut *f.borrow_mut())) }
     pub struct Rejected;
     fn pick(n: usize) -> usize {
@@ -229,6 +234,7 @@ impl Drop for Tok {
                 let id = self.id as usize;
                 if id >= MAXID { nd::record_failure("[C03,C04,C05,C06] destructor run on garbage (id out of range)"); return; }
                 if DROPS[id] != 0 { nd::record_failure("[C03,C04,C05,C06] element destroyed twice"); }
+                nd::trace(format!("d{}", id));
                 DROPS[id] = DROPS[id].saturating_add(1);
                 DROP_ENTRIES += 1;
                 if PANIC_AT_DROP != 0 && DROP_ENTRIES == PANIC_AT_DROP && !std::thread::panicking() { panic!("injected destructor panic"); }
@@ -280,8 +286,15 @@ impl Clone for Tok {
         assert!((self.id as usize) < MAXID && drops(self.id as usize) == 0, "[C03,C04] clone of a dead or garbage element");
         let t = Tok::fresh();
         unsafe { PARENT[t.id as usize] = self.id; }
+        #[cfg(not(kani))]
+        nd::trace(format!("c{}>{}", self.id, t.id));
         t
     }
+}
+
+#[cfg(not(kani))]
+impl core::fmt::Debug for Tok {
+    fn fmt(&self, f: &mut core::fmt::Formatter<'_>) -> core::fmt::Result { write!(f, "T{}", self.id) }
 }
 
 impl PartialEq for Tok {
@@ -450,6 +463,34 @@ pub fn replay_main() {
         match hit {
             Some(m) => { println!("{{\"status\":\"fails\",\"message\":\"{}\",\"inputs\":\"{}\"}}", esc(&m), esc(&log.join(" "))); std::process::exit(1); }
             None => { println!("{{\"status\":\"passes\",\"inputs\":\"{}\"}}", esc(&log.join(" "))); std::process::exit(0); }
+        }
+    }
+    if args[2] == "trace" {
+        // print one line per run: choice vector, FNV-1a hash of the observable trace, number of failed clauses
+        let max_runs: usize = args.get(3).and_then(|s| s.parse().ok()).unwrap_or(2000000);
+        let mut choices: Vec<(usize, usize)> = Vec::new();
+        let mut runs = 0usize;
+        loop {
+            let _ = nd::take_trace();
+            let (hit, ch, _log) = run_one(choices.clone());
+            let tr = nd::take_trace();
+            runs += 1;
+            let mut h: u64 = 0xcbf29ce484222325;
+            for ev in tr.iter() { for b in ev.bytes() { h ^= b as u64; h = h.wrapping_mul(0x100000001b3); } h ^= 0xff; h = h.wrapping_mul(0x100000001b3); }
+            let cs: Vec<String> = ch.iter().map(|c| c.0.to_string()).collect();
+            let verbose = std::env::var("VERIF_TRACE_VERBOSE").is_ok();
+            if verbose { println!("{} {:016x} {} {}", cs.join(","), h, if hit.is_some() { "F" } else { "-" }, tr.join(" ")); }
+            else { println!("{} {:016x} {}", cs.join(","), h, if hit.is_some() { "F" } else { "-" }); }
+            let mut v = ch;
+            let mut done = false;
+            loop {
+                match v.pop() {
+                    None => { done = true; break; }
+                    Some((i, n)) => { if i + 1 < n { v.push((i + 1, n)); break; } }
+                }
+            }
+            if done || runs >= max_runs { println!("TRACE-END runs={} complete={}", runs, done); std::process::exit(0); }
+            choices = v;
         }
     }
     let max_runs: usize = args.get(3).and_then(|s| s.parse().ok()).unwrap_or(200000);
